@@ -73,8 +73,23 @@ def tree_digest(variant):
 
 
 def build_variant(variant):
-    """Returns the directory holding the engines of this variant built from the current tree."""
-    comp, flags, lflags, engines = VARIANTS[variant]
+    """Returns the directory holding the engines of this variant built from the current tree. The sanitizer variants are
+    built with clang++; a tree that g++ (the repository's own compiler) accepts but clang++ 14 does not - e.g. code using
+    parts of <ranges> that clang 14 cannot compile against libstdc++ 12 - is built with g++ and the same sanitizers."""
+    comp = VARIANTS[variant][0]
+    try:
+        return build_variant_with(variant, comp)
+    except RuntimeError as e:
+        if comp != "clang++":
+            raise
+        log(f"[build] {variant}: clang++ failed ({str(e).splitlines()[0][:120]}); retrying with g++")
+        return build_variant_with(variant, "g++")
+
+
+def build_variant_with(variant, comp):
+    _, flags, lflags, engines = VARIANTS[variant]
+    if comp == "g++" and VARIANTS[variant][0] != "g++":
+        flags = ["-O2" if f == "-O1" else f for f in flags]   # g++ needs -O2 for the library's always_inline predicates
     key = tree_digest(variant)
     d = os.path.join(BUILD, f"{variant}-{key}")
     if os.path.exists(os.path.join(d, "OK")):
@@ -118,11 +133,11 @@ def build_variant(variant):
             objs.append(os.path.join(d, "sched.o"))
             objs.append(os.path.join(d, "blockwrap.o"))
             wrap = ["-Wl," + ",".join("--wrap=" + f for f in ("pthread_once", "pthread_mutex_lock", "pthread_mutex_trylock",
-                                                              "__cxa_guard_acquire", "__cxa_guard_release", "__cxa_guard_abort"))]
+                                                              "__cxa_guard_acquire", "__cxa_guard_release", "__cxa_guard_abort", "syscall"))]
             if variant == "tsan":
                 objs.append(os.path.join(d, "atomwrap.o"))
                 wrap += ["-Wl," + ",".join(f"--wrap=__tsan_atomic{w}_" + f for w in (8, 32) for f in
-                                          ("load", "store", "exchange", "compare_exchange_strong", "compare_exchange_weak"))]
+                                          ("load", "store", "exchange", "compare_exchange_strong", "compare_exchange_weak", "compare_exchange_val"))]
         r = sh([comp] + lflags + objs + wrap + ["-o", os.path.join(d, e)])
         if r.returncode != 0:
             raise RuntimeError(f"link of {e} ({variant}) failed:\n{r.stdout[-4000:]}")
@@ -492,6 +507,7 @@ def configs_for(prop, tier):
                 ("asan", "e1", ["--mode", "a", "--fault", "starve", "--maxthreads", mt, "--maxviol", "1000000"], 5 * t, "c13_starve_asan"),
                 ("tsan", "e1", ["--mode", "a", "--fault", "none", "--maxthreads", mt, "--mix", "api", "--cold", "2"], 8 * t, "c13_cold_tsan"),
                 ("asan", "e1", ["--mode", "a", "--fault", "none", "--maxthreads", mt, "--mix", "api", "--cold", "2"], 5 * t, "c13_cold_asan"),
+                ("asan", "e1", ["--mode", "x", "--cold", "1"], 4 * t, "c13_exit_asan"),
                 ("plain", "e2", ["--prop", "C13"], 8 * t, "c13_limit_enum_plain"),
                 ("asan", "e2", ["--prop", "C13"], 6 * t, "c13_limit_enum_asan"),
                 ("tsan", "e1", ["--mode", "b", "--maxthreads", mt], 8 * t, "c13_b_tsan"),
